@@ -124,6 +124,18 @@ pub fn compare_with_reference(prog: &Prog, ctx: &mut Ctx, cli_sample: bool, faul
         return Ok(None);
     }
     let src = render::text(prog, render::Style::Minimal);
+    // every eighth program (by its text) is written with blanks, line breaks and comments of
+    // every shape between its tokens (C07's decorator, driven by a tape derived from the text, so
+    // that a replay writes it the same way): a program with comments is a program
+    let h = src.bytes().fold(0xcbf29ce484222325u64, |a, b| (a ^ b as u64).wrapping_mul(0x100000001b3));
+    let src = if h % 8 == 0 {
+        ctx.label("source-written-with-comments");
+        let tape = crate::tools::random_tape(h, 400);
+        let mut t = crate::tape::Tape::new(&tape);
+        crate::props::c07::decorate(&render::tokens(prog, render::Style::Minimal), &mut t)
+    } else {
+        src
+    };
     let case = || case_json(prog, &render::pretty(prog));
     let exp = Expect { out: &r.out, ok: r.outcome == Outcome::Ok };
     let refkind = match &r.outcome {
